@@ -447,7 +447,9 @@ func ruleCtx(c *Ctx) {
 		var creates []ssa.Instruction
 		allInstrs(fn, func(in ssa.Instruction) {
 			if call, ok := in.(ssa.CallInstruction); ok {
-				if cal := call.Common().StaticCallee(); cal != nil && cal.String() == "os/exec.CommandContext" {
+				// both ways of creating the child: a run under a context that is never cancelled must behave like a
+				// run without one, so the plain command gets the same WaitDelay
+				if cal := call.Common().StaticCallee(); cal != nil && (cal.String() == "os/exec.CommandContext" || cal.String() == "os/exec.Command") {
 					creates = append(creates, in)
 				}
 			}
@@ -463,6 +465,9 @@ func ruleCtx(c *Ctx) {
 		for _, cr := range creates {
 			nCtxCmd++
 			key := "cmd-ctx:WaitDelay:" + fnKey(fn)
+			if cc, ok := cr.(ssa.CallInstruction); ok && cc.Common().StaticCallee().String() == "os/exec.Command" {
+				key = "cmd-ctx:WaitDelay-plain:" + fnKey(fn)
+			}
 			// the block of the creation sets it after the call, or every way out of the function from there meets a block that does
 			sameBlock := false
 			after := false
@@ -500,7 +505,7 @@ func ruleCtx(c *Ctx) {
 				walk(cr.Block())
 			}
 			c.check(sameBlock || leak == token.NoPos, key, posOr(leak, cr.Pos()), "a child created with the context gets a positive WaitDelay on every path out of "+fnKey(fn),
-				fnKey(fn)+" hands out a command created with exec.CommandContext on a path that never sets a positive WaitDelay: after cancellation kills the shell, Wait still waits for the output pipes a grandchild holds open, so system(), close() and the end of the run block until that grandchild ends instead of returning the context's error promptly")
+				fnKey(fn)+" hands out a command (exec.Command or exec.CommandContext) on a path that never sets a positive WaitDelay - both must get the same one, or a run under a context that is never cancelled behaves differently from a run without a context: after cancellation kills the shell, Wait still waits for the output pipes a grandchild holds open, so system(), close() and the end of the run block until that grandchild ends instead of returning the context's error promptly")
 		}
 	}
 	c.atLeast("children created with the context", nCtxCmd, 1)
